@@ -361,6 +361,19 @@ func (c18) Gen(rng *rand.Rand, tier string, i int) *sim.Scenario {
 		}
 		sc.Note = "family=enrich"
 	case 1: // cache histories
+		if i%900 == 1 {
+			// many live entries at once: a stored success is served until ITS expiry, however many others exist
+			n := between(rng, 900, 1500)
+			var addrs []string
+			for a := 0; a < n; a++ {
+				addrs = append(addrs, fmt.Sprintf("198.19.%d.%d", a/250, 1+a%250))
+			}
+			sc.Calls = []sim.Call{{Entry: "reverse_dns", Addrs: addrs, Repeat: 2, GapUs: int64(pick(rng, 1, 60, 1800)) * 1000000}}
+			sc.DNS = []sim.DNSPlan{{Addr: "*", Script: []string{"names:1"}}}
+			sc.Note = "family=cache-many"
+			sc.Tape = nil
+			return sc
+		}
 		if chance(rng, 0.5) {
 			addr := "198.18.7.7"
 			for k := 0; k < between(rng, 1, 3); k++ {
@@ -381,7 +394,7 @@ func (c18) Gen(rng *rand.Rand, tier string, i int) *sim.Scenario {
 			for p := 0; p < 5; p++ {
 				var script []string
 				for k := 0; k < 8; k++ {
-					script = append(script, pick(rng, fmt.Sprintf("status:200:203.0.113.%d", 1+p*10+k), fmt.Sprintf("status:%d:no", clientStatus(rng)), "status:200:junk", fmt.Sprintf("status:200:203.0.113.%d", 100+p*10+k)))
+					script = append(script, pick(rng, fmt.Sprintf("status:200:203.0.113.%d", 1+p*10+k), fmt.Sprintf("status:%d:no", clientStatus(rng)), "status:200:junk", fmt.Sprintf("status:200:203.0.113.%d", 100+p*10+k), fmt.Sprintf("status:200:2001:db8:%x::%x\n", 1+p, 1+k), fmt.Sprintf("status:200:::ffff:203.0.113.%d", 200+k)))
 				}
 				sc.HTTP = append(sc.HTTP, sim.HTTPPlan{Provider: p, Script: script})
 			}
@@ -543,6 +556,23 @@ func (c18) Check(out *sim.Outcome, ri *RunInfo) []Violation {
 				}
 			}
 		}
+	case "cache-many":
+		cs := w.Calls[0]
+		if len(cs.Iters) < 2 {
+			return vs
+		}
+		ri.NonTrivial = true
+		ri.probe(fmt.Sprintf("live-entries>=%d", len(cs.C.Addrs)/500*500))
+		first, second := cs.Iters[0], cs.Iters[1]
+		if second.DNSCallsDuring > 0 {
+			vs = append(vs, Violation{Rule: "C18.requery", Detail: fmt.Sprintf("%d addresses were resolved and stored, %v later (expiry 1 h) looking them up again sent %d queries to the resolver", len(cs.C.Addrs), time.Duration(cs.C.GapUs)*time.Microsecond, second.DNSCallsDuring), Facts: facts("family", family)})
+		}
+		for a, n1 := range first.Names {
+			if fmt.Sprint(second.Names[a]) != fmt.Sprint(n1) {
+				vs = append(vs, Violation{Rule: "C18.stale", Detail: fmt.Sprintf("address %s: first look-up gave %v, the cached second one %v", a, n1, second.Names[a]), Facts: facts("family", family)})
+				break
+			}
+		}
 	case "cache-dns", "cache-ip":
 		ttl := time.Hour
 		if family == "cache-ip" {
@@ -620,6 +650,21 @@ func (c18) Check(out *sim.Outcome, ri *RunInfo) []Violation {
 					queried = it.DialsDuring
 				}
 				who := fmt.Sprintf("call %d iteration %d [%v..%v]", cs.Idx, k+1, it.StartAt, it.EndAt)
+				if family == "cache-ip" && it.Err == nil && queried > 0 {
+					// what a fetch returns is the address a provider answered during it, whatever its family
+					answered := map[string]bool{}
+					for _, hc := range w.HTTPConns() {
+						if hc.DialAt >= it.StartAt && hc.DialAt <= it.EndAt {
+							if kind, ip := scriptOutcome(hc.Script); kind == "ok" {
+								answered[mustParse(ip).Unmap().String()] = true
+							}
+						}
+					}
+					got, err := netip.ParseAddr(it.IP)
+					if err != nil || !answered[got.Unmap().String()] {
+						vs = append(vs, Violation{Rule: "C18.provider-order", Detail: fmt.Sprintf("%s fetched %q, the providers asked during it answered %v", who, it.IP, answered), Facts: facts("family", family, "kind", "fetched-value")})
+					}
+				}
 				if len(fresh) > 0 {
 					ri.NonTrivial = true
 					ri.probe("fresh-entry-available")
